@@ -193,6 +193,12 @@ def scalar_rules(F, R):
                         if "agg" in s["r"] and isinstance(s["r"]["agg"], dict) and "vname" in s["r"]["agg"]]
             ok = f_t is not None and built(f_t, t_t) == ["False"] and built(t_t, f_t) == ["True"]
     R.ob("D4.bool-from", "Bool", "From<bool>", ok, "Bool::from(true) = True, Bool::from(false) = False", where=fb[0]["span"] if fb else None)
+    # comparisons / hashing / copies of Bool are the derived ones on the two-variant enum (False = 0 < True = 1: the native order of bool)
+    for tr in ("core::cmp::PartialEq", "core::cmp::Eq", "core::cmp::PartialOrd", "core::cmp::Ord", "core::hash::Hash", "core::clone::Clone"):
+        ims = [im for im in F.impls if im.get("trait") == tr and im.get("self") == "flatty_portable::bool_::Bool"]
+        ok = len(ims) == 1 and bool(ims[0].get("derived"))
+        R.ob("D4.bool-derives", "Bool", tr.split("::")[-1], ok, "Bool: %s is the derived impl on the enum (variant order False < True checked by D4.bool)" % tr.split("::")[-1],
+             nontrivial=False)
     # Bool -> bool and the operators (every pair of values: the bodies are straight-line delegations to the native bool)
     BFROM = "flatty_portable::bool_::<impl core::convert::From<flatty_portable::bool_::Bool> for bool>::from"
     tb = [b for b in F.bodies if b["krate"] == "flatty_portable" and b["def"] == BFROM]
